@@ -346,6 +346,18 @@ func (g *Gen) ledgerScenario(steps int) {
 				g.emit(fmt.Sprintf("confirm %d", bi))
 				g.emit("lcheck")
 			}
+			if (dupOnTrunk || dupOnSwitch) && e.ledgerTip() == oldTip && oldTip > 0 && g.r.Chance(1, 3) {
+				// the ledger is cut right after a block it refused at a late stage (nothing of the refused block may get
+				// written with the truncation), and reopened
+				c := w.chain(oldTip)
+				g.emit(fmt.Sprintf("truncate %d", c[g.r.Intn(len(c))]))
+				g.emit("lcheck")
+				g.emit("ledger")
+				g.emit("reopen")
+				g.emit("lcheck")
+				g.emit("ledger")
+				dupOnSwitch = false
+			}
 			if dupOnSwitch && e.ledgerTip() == oldTip {
 				bj := len(w.Blocks)
 				g.emit(fmt.Sprintf("blk %d pre=%d prop=m1 aa=%d aw=%d txs=", bj, oldTip, w.Award, len(w.Txs)))
